@@ -261,6 +261,10 @@ Qed.
 Lemma twin_fs_uptodate_eq sm p m : fs_uptodate_async sm p m = fs_uptodate sm p m.
 Proof. reflexivity. Qed.
 
+Lemma twin_fs_is_current_eq rp sm name p m :
+  fs_is_current_async rp sm name p m = fs_is_current rp sm name p m.
+Proof. reflexivity. Qed.
+
 (** * All modelled differing twins at once *)
 Theorem async_eq_sync_twins :
   (forall A B (override : A -> res B) x, delegate_async override x = delegate_sync override x)
@@ -287,7 +291,8 @@ Theorem async_eq_sync_twins :
   /\ (forall rp rd name a b, fs_get_source rp rd name = Ok a ->
         fs_get_source_async rp rd name = Ok b -> fs_source_same a b)
   /\ (forall rp rd name, is_ok (fs_get_source_async rp rd name) = is_ok (fs_get_source rp rd name))
-  /\ (forall sm p m, fs_uptodate_async sm p m = fs_uptodate sm p m).
+  /\ (forall sm p m, fs_uptodate_async sm p m = fs_uptodate sm p m)
+  /\ (forall rp sm name p m, fs_is_current_async rp sm name p m = fs_is_current rp sm name p m).
 Proof.
   split; [intros; apply twin_delegate_eq|].
   split; [intros; apply twin_drain_eq|].
@@ -303,6 +308,6 @@ Proof.
   split; [intros; apply twin_is_up_to_date_eq; assumption|].
   split; [intros; apply is_up_to_date_sync_conservative; assumption|].
   split; [intros; eapply twin_fs_get_source_same; eassumption|].
-  split; [|intros; apply twin_fs_uptodate_eq].
+  split; [|split; [intros; apply twin_fs_uptodate_eq|intros; apply twin_fs_is_current_eq]].
   intros. rewrite twin_fs_get_source_eq. destruct (fs_get_source rp rd name); reflexivity.
 Qed.
